@@ -4,7 +4,8 @@
 (* the transcription (T) and the property on the model (ModelOk) and exports *)
 (* every case.  One case = one distinct state.                               *)
 EXTENDS Ufunc, Json
-CONSTANTS Units, ConvUnits, UKinds0, UKinds1, UfOps, Forms, ArrFns, Fams, SpUnits, Hists, HUnits, ArrForms, AliasOps, DlUnits
+CONSTANTS Units, ConvUnits, UKinds0, UKinds1, UfOps, Forms, ArrFns, Fams, SpUnits, Hists, HUnits, ArrForms, AliasOps, DlUnits,
+          DerUnits, DHists, DArrFns, DepthForms
 NoTable == [x \in {} |-> 0]
 
 VARIABLE c
@@ -110,6 +111,9 @@ Next ==
   /\ \/ /\ "ufunc" \in Fams
         /\ \E op \in UfOps \cap KnownOps, form \in Forms, k0 \in UKinds0, k1 \in UKinds1, n0 \in Units \cup {"nd"}, n1 \in Units \cup {"nd"} :
              /\ UfLegal(op, form, k0, k1) /\ UnitOk(k0, n0) /\ UnitOk(k1, n1) /\ SpecialOk(form, k0, n0, k1, n1)
+             \* ufuncs the property says nothing about (products, logical operations, ...: P is vacuous, only the
+             \* transcription is compared) take the forms DepthForms in the thorough tier only
+             /\ (form \in {"outer","out"} /\ op \notin NeedsComm \cup EqNe => form \in DepthForms)
              /\ c' = Case("ufunc", op, form, k0, n0, k1, n1)
      \/ /\ "arrfn" \in Fams
         /\ \E op \in ArrFns \cap ArrOps, k0 \in UKinds0, k1 \in UKinds1, n0 \in Units \cup {"nd"}, n1 \in Units \cup {"nd"} :
@@ -161,7 +165,37 @@ HNext ==
             /\ ArrLegal(op, kk[1], kk[2]) /\ c' = CaseH("arrfn", op, "call", kk[1], n0, kk[2], n1, h)
        \/ /\ kk[1] = "a" /\ c' = CaseH("setitem", "setitem", IF kk[2] = "q" THEN "index" ELSE "slice", "a", n0, kk[2], n1, h)
        \/ \E e \in {"to","in_units","to_value","convert_to_units"} : c' = CaseH("conv", e, "obj", kk[1], n0, "u", n1, h)
-NextAll == Next \/ HNext
+\* derived units (Ufunc.tla: DTable): dimensions that differ only in the VALUE of a rational exponent (thirds, halves,
+\* fifths, signs) or in how the same base symbols are combined (L/T, T/L, L*T).  Each derived unit meets every other one
+\* and the base units la / ta / nd - and a bare non-zero number / array - in every family.  h = "computed": the unit
+\* objects are the ones a computation on quantities of the base units leaves behind (np.cbrt, np.sqrt, **, 1/x, x/y, x*y);
+\* h = "none": they are built by unit algebra / parsed from their string.  Neither T nor P sees h.
+DBase == {"la","ta","nd"}
+DPair(n0, n1) == (n0 \in DerUnits /\ n1 \in DerUnits \cup DBase) \/ (n1 \in DerUnits /\ n0 \in DBase)
+DUfOps == (NeedsComm \cup EqNe) \cap UfOps \cap KnownOps
+DUfKinds(form) == IF form = "call" THEN {<<"q","q">>, <<"a","a">>} ELSE IF form = "operator" THEN {<<"a","a">>, <<"q","a">>} ELSE {<<"a","a">>}
+DBareKinds(form) == IF form = "iop" THEN {<<"a","ba">>} ELSE {<<"q","bs">>, <<"a","ba">>, <<"bs","a">>, <<"ba","q">>}
+DArrKinds(op) == IF op \in {"linspace","geomspace"} THEN <<"q","q">>
+                 ELSE IF op \in {"pad","histogram_range","select","put_along_axis"} THEN <<"a","q">> ELSE <<"a","a">>
+DNext ==
+  /\ c = <<>> /\ "der" \in Fams
+  /\ \/ \E n0 \in DerUnits \cup DBase, n1 \in DerUnits \cup DBase :
+          /\ DPair(n0, n1)
+          /\ \/ \E h \in DHists, op \in DUfOps, form \in {"call","operator","iop"} : \E kk \in DUfKinds(form) :
+                  /\ UfLegal(op, form, kk[1], kk[2]) /\ c' = CaseH("ufunc", op, form, kk[1], n0, kk[2], n1, h)
+             \/ \E h \in DHists, op \in (DArrFns \cap ArrFns \cap ArrOps) \ {"copyto","einsum"} :
+                  /\ ArrLegal(op, DArrKinds(op)[1], DArrKinds(op)[2])
+                  /\ c' = CaseH("arrfn", op, "call", DArrKinds(op)[1], n0, DArrKinds(op)[2], n1, h)
+             \/ \E h \in DHists, k1 \in {"q","a","lq"} :
+                  c' = CaseH("setitem", "setitem", IF k1 = "q" THEN "index" ELSE "slice", "a", n0, k1, n1, h)
+             \/ \E e \in {"to","in_units","to_value","convert_to_units"}, f \in {"obj","str"} :
+                  c' = Case("conv", e, f, IF f = "obj" THEN "q" ELSE "a", n0, "u", n1)
+             \/ \E e \in {"add","subtract"} : c' = Case("unitop", e, "operator", "u", n0, "u", n1)
+     \* np.cbrt(8 la) + 1.0: a derived unit against a bare non-zero number / array (bare data is dimensionless)
+     \/ \E n \in DerUnits, h \in DHists, op \in DUfOps, form \in {"call","operator","iop"} : \E kk \in DBareKinds(form) :
+          /\ UfLegal(op, form, kk[1], kk[2])
+          /\ c' = CaseH("ufunc", op, form, kk[1], IF HasUnit(kk[1]) THEN n ELSE "nd", kk[2], IF HasUnit(kk[2]) THEN n ELSE "nd", h)
+NextAll == Next \/ HNext \/ DNext
 Spec == Init /\ [][NextAll]_c
 
 \* every case is exported with the model-level verdict; ufuncs of the tree the specification has no rule for are reported
